@@ -22,7 +22,7 @@ CHECKS = {
               text='Metamorphic polynomial identity decided for ALL admissible states: explicit+implicit tendency of the same physical atmosphere under two reference-temperature profiles agree (dry, with-time, moist, cloud classes; orography; tracers; even/uneven levels; non-monotone profiles).',
               design='§3 C04'),
   'C05': dict(category='other', technique='symbolic execution of the traced jaxpr on balanced families with symbolic parameters and against independent weak-form reference models + QF_LRA monomial-abstraction queries',
-              text='Analytically balanced families have identically zero total tendency for ALL parameter values in the box: isothermal rest over arbitrary orography (every retained coefficient symbolic, T0 concrete and symbolic), solid-body rotation in gradient-wind balance (U, per-level temperatures, humidity, ln ps), geostrophic shallow-water jets (jet coefficients, 1-2 layers); moist(q=0)=dry for all states; total tendency of the dry primitive equations AND of the layered shallow-water equations equals an independent weak-form evaluation of the continuous equations (mpmath basis tables, numpy Gauss weights, unsplit documented vertical scheme / physical layer coupling) for all alias-free states. The weak-form reference clause also runs with an integer-valued reference profile passed as int64.',
+              text='Analytically balanced families have identically zero total tendency for ALL parameter values in the box: isothermal rest over arbitrary orography (every retained coefficient symbolic, T0 concrete and symbolic), solid-body rotation in gradient-wind balance (U, per-level temperatures, humidity, ln ps), geostrophic shallow-water jets (jet coefficients, 1-2 layers); moist(q=0)=dry for all states; total tendency of the dry primitive equations AND of the layered shallow-water equations equals an independent weak-form evaluation of the continuous equations (mpmath basis tables, numpy Gauss weights, unsplit documented vertical scheme / physical layer coupling) for all alias-free states. The weak-form reference clause also runs with an integer-valued reference profile passed as int64. MOIST equations against a moist weak-form reference written from the physics (virtual temperature, moist kappa, advected humidity): all states and humidity fields with l <= 1 for vorticity/divergence/surface pressure/humidity, per-layer uniform symbolic humidity for the temperature tendency.',
               design='§3 C05'),
   'C06': dict(category='other', technique='power-series execution of the traced step functions (time step symbolic) + QF_LRA queries on Taylor coefficients; QF_NRA queries on the amplification factor; QF_UFNRA equivalence of the generic drivers with symbolic tableaux and uninterpreted operators; CrossHair for list-length validation',
               text='Order conditions decided for ALL ODE coefficients (cubic scalar and tree-separating non-autonomous problem), reductions to parent explicit/implicit schemes, |R(z)|<=1 on the imaginary axis for all schemes and on the closed half plane where decided, leapfrog theta-method reduction and stability for several alpha, coefficient-length validation; the two generic drivers (imex_runge_kutta, low_storage_runge_kutta_crank_nicolson) equal their textbook definitions for SYMBOLIC coefficients (8 tableau zero patterns, 1-3(5) low-storage stages) and uninterpreted F, G, G^-1.',
@@ -40,7 +40,7 @@ CHECKS = {
               text='The same SI problem built under two unit scales (default, atmospheric, SI, odd, seeded decades, and the default scale with exactly one base unit changed) gives SI-equal tendencies and Euler step for ALL states in the box: dry and moist primitive equations, Held-Suarez forcing, shallow water incl. 2-frame trajectories.',
               design='§3 C12'),
   'C14': dict(category='other', technique='symbolic execution of the traced combinators with uninterpreted step/filter/scan functions (z3 EUF terms) + QF_UF/QF_UFNRA equivalence queries, including reverse-mode gradient IRs',
-              text='trajectory_from_step, repeated, step_with_filters, nested_checkpoint_scan (carries, non-scalar stacked outputs, gradients, explicit length, identity checkpoint, no scanned inputs), accumulate_repeated and digital-filter initialisation (= defining sum with independently computed Lanczos weights, evaluated twice) are equal to their sequential definitions for EVERY step/filter function and all data, for each enumerated split / ordered factorisation.',
+              text='trajectory_from_step, repeated, step_with_filters, nested_checkpoint_scan (carries, non-scalar stacked outputs, gradients, explicit length, identity checkpoint, no scanned inputs), accumulate_repeated and digital-filter initialisation (= defining sum with independently computed Lanczos weights, evaluated twice; also with an UNINTERPRETED equation - explicit terms, implicit terms, one solve per step size - driven through the library integrators, whose backward half must integrate the documented time reversal) are equal to their sequential definitions for EVERY step/filter function and all data, for each enumerated split / ordered factorisation.',
               design='§3 C14'),
   'C15': dict(category='other', technique='symbolic execution of the traced filter factories with symbolic strength parameters (z3 terms, exp uninterpreted) + QF_NRA queries on the exp-arguments; polynomial identities for application and Robert-Asselin',
               text='For ALL positive attenuation/scale/dt/tau: factors depend only on total wavenumber, equal 1 for the mean, lie in (0,1], are non-increasing, compose over half steps and follow the documented top-mode law (orders 1..18, cutoffs, both layouts, padded grids); application to pytrees is an elementwise product on spectral leaves and the identity on others; array strengths (incl. exact-zero / infinite-tau entries) act slice-wise for all six factories; Robert-Asselin identities for all r. Integer-stored spectral leaves (int64/int32) are filtered like their real values.',
@@ -55,16 +55,16 @@ CHECKS = {
               text='Radiation: for ALL phases, positions and solar constants: |sin altitude|<=1, irradiance bounds, 0 <= flux <= S+dS, flux = 0 iff sun not above horizon, normalised flux in [0,1], 2pi-periodicity in both phases; orbital phases in [0,2pi) and congruent to elapsed time; SolarRadiation (class level): node coordinates equal the grid specification (offsets, both layouts) and radiation_flux(t) equals the unit function at those nodes for every t. Held-Suarez: friction/relaxation rates for ALL sigma levels and parameters (non-negative, zero above the boundary layer), linear drag law, temperature relaxation affine in T and independent of wind, no surface-pressure tendency, equilibrium floor. Held-Suarez drag/relaxation also on a surface-refined level set.',
               design='§3 C20'),
   'C18': dict(category='other', technique='symbolic scalars (z3 Real; Float64 bit-vector term + rounding-error-model term) executed through the real scales.py / pint / xarray_utils code, numpy integer cast captured; QF_NRA, QF_BVFP (z3 then cvc5) and QF_LIRA queries',
-              text='Scale laws (inverse, unit independence, products/quotients/powers) for ALL magnitudes and ALL positive base scales; whole-second durations and minute-resolution datetimes through the real conversion code decided bit-precisely on a bounded range (both signs) and by the rounding-error model up to 2^26 minutes; orbital phases from symbolic day-of-year/hour/minute.',
+              text='Scale laws (inverse, unit independence, products/quotients/powers) for ALL magnitudes and ALL positive base scales; whole-second durations and minute-resolution datetimes through the real conversion code decided bit-precisely on a bounded range (both signs) and by the rounding-error model up to 2^26 minutes; orbital phases from symbolic day-of-year/hour/minute, and from symbolic model time through the traced SolarRadiation.time_to_orbital_time (in [0, 2 pi) and equal to the reduced reference + rate * t, |phase| <= 2000 rad).',
               design='§3 C18'),
   'C19': dict(category='exploration', technique='element-id symbolic execution of the traced tree utilities / resampling (exact identity queries); CrossHair symbolic execution (z3) of the real dictionary utilities over symbolic keys and separators; enumerated attribute/dataset round trips',
-              text='pack/unpack, stack/unstack, split/concat, split_axis and spectral up/down-sampling are exact identities for ALL leaf values on enumerated tree shapes (up-sampling tied to the analytic basis); coordinate-system attrs round trip CONFIRMED OVER ALL PATHS by CrossHair for symbolic grid sizes / spacing / offset / radius / layer count (both implementations); flatten/unflatten explored by CrossHair per tree shape with symbolic keys (<= 2 chars) and separator within a time budget, counterexamples replayed; dataset dimension names on enumerated configurations.',
+              text='pack/unpack, stack/unstack, split/concat, split_axis and spectral up/down-sampling are exact identities for ALL leaf values on enumerated tree shapes (up-sampling tied to the analytic basis); coordinate-system attrs round trip CONFIRMED OVER ALL PATHS by CrossHair for symbolic grid sizes / spacing / offset / radius / layer count (both implementations); flatten/unflatten explored by CrossHair per tree shape with symbolic keys (<= 2 chars) and separator within a time budget, counterexamples replayed; dataset dimension names and bit-identical read-back on enumerated configurations (modal / nodal, every combination of the optional sample and time axes).',
               design='§3 C19'),
   'C07': dict(category='other', technique='lock-step symbolic execution of the traced shard_map programs over all devices of real CPU meshes (collectives implemented across per-device environments) + QF_LRA / monomial-abstraction equivalence queries against the unsharded program',
               text='For ALL inputs: sharded transforms, longitude derivative, spectral operators, filters, sharded_einsum (gather/scatter strategies, both argument orders), parallel cumulative sums, vertical padding, primitive-equation implicit/explicit operators equal the single-device results after cropping, on meshes with axis sizes 1,2,4,6 (<= 8 devices) and padded layouts; no non-finite constant reaches the IR.',
               design='§3 C07'),
   'C08': dict(category='other', technique='symbolic execution of the jaxprs of jax.jvp / jax.vjp of the real functions (polynomial normal forms with atoms; z3 ite-terms for kinked functions) + exact symbolic differentiation of the primal normal form + QF_LRA monomial-abstraction / QF_NRA queries; definedness hazards settled by QF_NRA witness + replay',
-              text='For ALL admissible states, tangents and cotangents: forward mode equals the exact derivative of the primal (chain rule through exp/log/pow/reciprocal atoms), reverse mode is the adjoint of forward mode, and no undefined operation is reachable in the derivative programs (an operation on the edge of its domain is settled by a solver witness replayed on the real jax.jvp/jax.vjp): transforms and spectral operators, filters, dry and moist primitive-equation explicit/implicit terms and a filtered Euler step, shallow-water steps, Held-Suarez forcing, plain and padded layouts; kinks (vertical interpolation routines, upwind advection) decided in the term domain for every branch: derivative of the documented formula off the kink, central-difference limit at the kink, adjointness everywhere. A comparison on data that switches inside the admissible box in a differentiated program is probed: QF_NRA witnesses on either side of and on the switching surface, real jax.jvp against central differences of the real primal there.',
+              text='For ALL admissible states, tangents and cotangents: forward mode equals the exact derivative of the primal (chain rule through exp/log/pow/reciprocal atoms), reverse mode is the adjoint of forward mode, and no undefined operation is reachable in the derivative programs (an operation on the edge of its domain is settled by a solver witness replayed on the real jax.jvp/jax.vjp): transforms and spectral operators, filters, dry and moist primitive-equation explicit/implicit terms (dense and cumulative-sum vertical operators, split and blockwise solves; jax linear_call interpreted) and a filtered Euler step, shallow-water steps, Held-Suarez forcing, plain and padded layouts; kinks (vertical interpolation routines, upwind advection) decided in the term domain for every branch: derivative of the documented formula off the kink, central-difference limit at the kink, adjointness everywhere. A comparison on data that switches inside the admissible box in a differentiated program is probed: QF_NRA witnesses on either side of and on the switching surface, real jax.jvp against central differences of the real primal there.',
               design='§3 C08'),
   'C13': dict(category='other', technique='symbolic execution of the traced jaxpr + QF_LRA queries (monomial abstraction for bilinear clauses)',
               text='Bounded symbolic verification of the sigma calculus identities for ALL column data and vertical velocities on each enumerated level set (even, dyadic uneven, seeded random), axis and shape. The same calculus on integer-valued data stored as int64/int32 (traced with an integer argument, integer witnesses) equals the documented formulas on the real values.',
